@@ -1053,7 +1053,13 @@ class Ex:
                     c = self.world.contract_for_func(self.frame().func)
                     ty = getattr(c, "field_types", {}).get(name) if c is not None else None
                     if isinstance(obj, VObj):
-                        if ty is not None:
+                        cur_ = obj.fields.get(name)
+                        if isinstance(cur_, VBox):
+                            # a mutable container held in the field: the loop may have changed its CONTENT (the object stays)
+                            if id(cur_) not in done:
+                                done.add(id(cur_))
+                                self.havoc_box(cur_, name)
+                        elif ty is not None:
                             obj.fields[name] = self.world.speclib.fresh_typed(self, ty, name)
                         else:
                             obj.fields[name] = self.havoc_value(obj.fields[name], name)
